@@ -135,6 +135,9 @@ def run(ctx):
         if c["status"] in ("interp", "reject"):
             ctx.nontrivial.add(repr(c["ds"]))
     ctx.traces += len(cases)
+    # spec growth beyond the property: arange_with_interval, rounding helper, equally spaced grids
+    from .. import helpers_check
+    helpers_check.run(ctx, {"arange", "round", "grid"}, "C19")
     for c in [c for c in cases if c["status"] == "interp"][:3]:
         ctx.sample(c)
     ctx.assumptions += ["overlap shorter than one coarsest step: either answer accepted (the property does not decide it)",
